@@ -649,6 +649,17 @@ def entry_cases(tier):
                 cases.append({"part": "entry", "ep": "calib", "det": kind, "key": k, "kcls": "valid"})
             for k, cls in picked:
                 cases.append({"part": "entry", "ep": "calib", "det": kind, "key": k, "kcls": cls})
+    # keys that address an entry INSIDE a dictionary-valued / list-of-dictionaries model argument
+    for key, ok in (("d.k", True), ("d.r", True), ("ld.0.k", True), ("ld.1.k", True), ("d.kk", False), ("d.K", False),
+                    ("d.k.foo", False), ("ld.0.kk", False), ("ld.2.k", False), ("dd.k", False)):
+        for via in ("override", "set", "replace", "sweep"):
+            cases.append({"part": "entry", "ep": "nested", "det": "ccd", "key": "pipeline.photon_collection.p1.arguments." + key,
+                          "kcls": "valid" if ok else "invalid-nested", "via": via})
+    # and the history "run, then assign, then run again" on the same objects (a value must not be frozen by a first run)
+    for key in ("pipeline.photon_collection.p1.arguments.i", "pipeline.photon_collection.p1.arguments.d.k",
+                "pipeline.photon_collection.p1.enabled", "detector.environment.temperature"):
+        for via in ("override", "set", "sweep"):
+            cases.append({"part": "entry", "ep": "rerun", "det": "ccd", "key": key, "kcls": "valid", "via": via})
     # the same model name in two groups, one enabled and one disabled (both orders): a key addresses ONE model - the
     # argument of the disabled one must be refused, the argument of the enabled one must be swept
     for which_disabled in ("first", "second"):
@@ -659,7 +670,7 @@ def entry_cases(tier):
                                   "kcls": "valid" if target == "enabled-one" else "disabled-model", "exec": ex,
                                   "mode": mode, "disabled": which_disabled, "aim": target})
     for c in cases:
-        if c["ep"] == "dupname":
+        if c["ep"] in ("dupname", "nested", "rerun"):
             c["target"] = "model-argument"
             continue
         src = c["key"] if c["kcls"] in ("valid", "disabled-model") else next(
@@ -722,12 +733,18 @@ def run_entry(case):
         aim_first = (case["aim"] == "enabled-one") == first_enabled
         key = ("pipeline.photon_collection." if aim_first else "pipeline.charge_collection.") + "dup.arguments.i"
         case = dict(case, key=key)
+    if ep in ("nested", "rerun"):
+        pipe = mk.pipeline({"photon_collection": [("vp.cprobes.plain", "p1",
+                                                   {"i": 3 + _s(), "d": {"k": 1, "r": 2.5}, "ld": [{"k": 1}, {"k": 2}]}, True)],
+                            "charge_generation": [("vp.cprobes.plain", "q1", {"i": 7}, True)]})
     before = snapshot.snapshot([det, pipe])
     probes.reset()
     outcome = None
     tmp = tempfile.mkdtemp(prefix="vp_c08_")
     try:
-        if ep == "dupname":
+        if ep in ("nested", "rerun"):
+            outcome = _run_nested(case, det, pipe, before, bad)
+        elif ep == "dupname":
             outcome = _run_sweep(case, det, pipe, before, bad)
         elif ep == "override":
             v = value_of(case["value"])
@@ -819,6 +836,76 @@ def _seen_arguments(trace):
 
 def same_args(a, b):
     return sorted(a) == sorted(b) and all(same(a[k], b[k]) for k in a)
+
+
+def _run_nested(case, det, pipe, before, bad):
+    """one assignment of `key` through `via`, optionally after a first run of the same objects (ep == 'rerun')"""
+    import pyxel
+    from pyxel.observation import Observation, ParameterValues
+    from pyxel.pipelines import Processor
+
+    key, via, valid = case["key"], case["via"], case["kcls"] == "valid"
+    seg = key.split(".")
+    if case["ep"] == "rerun":
+        pyxel.run_mode(mk.exposure([1.0]), det, pipe)               # the first run, configuration as given
+        before = snapshot.snapshot([det, pipe])
+        probes.reset()
+    new = 41 + _s()
+    if key.endswith(".enabled"):
+        new = False
+    elif key.startswith("detector"):
+        new = 150.0 + _s()
+    exc = None
+    target_det, target_pipe = det, pipe
+    try:
+        if via == "override":
+            pyxel.run_mode(mk.exposure([1.0]), det, pipe, override_dct={key: new})
+        elif via == "set":
+            Processor(det, pipe).set(key, new)
+            pyxel.run_mode(mk.exposure([1.0]), det, pipe)
+        elif via == "replace":
+            q = Processor(det, pipe).replace({key: new})
+            target_det, target_pipe = q.detector, q.pipeline
+            pyxel.run_mode(mk.exposure([1.0]), target_det, target_pipe)
+        else:
+            obs = Observation(parameters=[ParameterValues(key=key, values=[new])], readout=mk.readout([1.0]))
+            pyxel.run_mode(obs, det, pipe, with_inherited_coords=True)
+    except Exception as e:  # noqa: BLE001
+        exc = e
+    trace = list(probes.TRACE)
+    if not valid:
+        if exc is None:
+            bad("invalid-accepted", f"{via} of {key}={new!r} raised nothing; {len(trace)} model call(s) ran "
+                "(the key addresses no existing entry)", via=via)
+        elif trace:
+            bad("rejected-after-running", f"{via} raised {type(exc).__name__} only after {len(trace)} model call(s)", via=via)
+        d = snapshot.diff(before, snapshot.snapshot([det, pipe]), ignore=("_numbytes", "_func"))
+        if d:
+            bad("invalid-raised-but-changed", f"{via} of the invalid key changed the caller's objects: {snapshot.fmt(d, 3)}",
+                via=via)
+        return ["invalid", type(exc).__name__ if exc else None, len(trace)]
+    if exc is not None:
+        bad("valid-refused", f"{via} of the valid key {key}={new!r} raised {type(exc).__name__}: {str(exc)[:200]}", via=via)
+        return ["valid-refused", type(exc).__name__]
+    seen = _seen_arguments(trace)
+    if key.endswith(".enabled"):
+        if "p1" in seen:
+            bad("value-not-applied", f"after {via} of {key}=False model p1 still ran", via=via, history=case["ep"])
+    elif seg[0] == "pipeline":
+        got = seen.get("p1", {})
+        node = got
+        try:
+            for part in seg[4:]:
+                node = node[int(part)] if isinstance(node, list) else node[part]
+        except Exception:  # noqa: BLE001
+            node = "<missing>"
+        if not same(node, new):
+            bad("value-not-applied", f"after {via} of {key}={new!r} model p1 received {got}", via=via, history=case["ep"])
+    else:
+        cur = Processor(target_det, target_pipe).get(key) if via != "sweep" else None
+        if via != "sweep" and not same(cur, new):
+            bad("value-not-applied", f"after {via} of {key}={new!r} the detector holds {show(cur)}", via=via, history=case["ep"])
+    return ["applied", via, len(trace)]
 
 
 def _run_sweep(case, det, pipe, before, bad):
